@@ -1,7 +1,6 @@
 SPECIFICATION Spec
 CONSTANTS
-  Strs <- MCStrs
-  Delims <- MCDelims
+  Pairs <- MCPairs
   MaxChars = 3
 VIEW View
 INVARIANTS WindowInv Refines RemainderInv InitialSeqs EndsAgree EmitInv
